@@ -40,13 +40,13 @@ DESELECT = ["--deselect", "tests/render/test_draw.py::test_fixtures",
 CHECKS = {
     "compute/reconciliation.py": ["C01", "C07", "C10", "C09"],
     "compute/exhaustive.py": ["C01"],
-    "compute/super_reconciliation.py": ["C02", "C05", "C08", "C10", "C09"],
-    "compute/unordered_super_reconciliation.py": ["C03", "C04", "C05", "C10"],
+    "compute/super_reconciliation.py": ["C02", "C05", "C08"],
+    "compute/unordered_super_reconciliation.py": ["C03", "C04", "C05"],
     "compute/util.py": ["C01", "C02", "C03"],
-    "model/reconciliation.py": ["C06", "C11", "C12", "C08"],
+    "model/reconciliation.py": ["C06", "C11", "C12"],
     "model/tree_mapping.py": ["C11", "C12"],
     "model/synteny.py": ["C11", "C12", "C15"],
-    "utils/dynamic_programming.py": ["C16", "C01"],
+    "utils/dynamic_programming.py": ["C16"],
     "utils/trees.py": ["C17", "C20", "C08"],
     "utils/range_min_query.py": ["C17"],
     "utils/subsequences.py": ["C18", "C02"],
@@ -134,6 +134,10 @@ def mutants_of(path, rel):
             func = node.name
         if isinstance(node, ast.Expr) and isinstance(node.value, ast.Constant) and isinstance(node.value.value, str):
             return  # docstring
+        if isinstance(node, ast.Call) and getattr(node.func, "id", "") == "tqdm":
+            for arg in node.args:   # the iterable is code, the keywords only shape the progress bar
+                visit(arg, func)
+            return
         if func and not isinstance(node, (ast.FunctionDef, ast.ClassDef)):
             add(node, func)
         for field, value in ast.iter_fields(node):
